@@ -14,7 +14,8 @@ Clauses (each one is a sentence of the property statement):
   names-resolve   every ExprName of the flat iteration of every expression has the same canonical_path before and
                   after; same for the canonical_path of keyword arguments (`ExprKeyword`)
   minimal-is-enough  the tree reloaded from the minimal dump has the original's full dump (no docstring parser)
-  cli             `griffe dump` (in-process griffe.main, stdout / -o file / -o '{package}.json') emits, per requested
+  cli             `griffe dump` (in-process griffe.main, stdout / -o file / -o '{package}.json'; each package requested by
+                  name, relative path, ./relative/path/, absolute path or dotted sub-module) emits, per requested
                   package, exactly json.loads(module.as_json(full=f)) of an identically configured loader; exit code 0
 """
 
@@ -609,6 +610,28 @@ def _check_builtin(case, observe=None) -> list[Fail]:
     return fails
 
 
+REQUEST_FORMS = ("name", "relative-path", "dot-relative-path-slash", "absolute-path", "dotted-submodule")
+
+
+def _cli_request(case, i: int, name: str, pkg, root: Path) -> str:
+    """How package i is named on the command line (case["req"][i] indexes REQUEST_FORMS; default: its name).
+    Path forms need a directory with an `__init__.py` (regular layout); the dotted form needs a sub-module."""
+    req = case.get("req") or []
+    form = REQUEST_FORMS[req[i] % len(REQUEST_FORMS)] if i < len(req) else "name"
+    regular = pkg["layout"] != "namespace"
+    if form == "relative-path" and regular:
+        return f"p{i}/sp1/{name}"
+    if form == "dot-relative-path-slash" and regular:
+        return f"./p{i}/sp1/{name}/"
+    if form == "absolute-path" and regular:
+        return str(root / f"p{i}" / "sp1" / name)
+    if form == "dotted-submodule":
+        subs = [slot for slot in G._present_slots(pkg) if slot]
+        if subs:
+            return f"{name}.{subs[0]}"
+    return name
+
+
 def _check_cli(case, observe=None) -> list[Fail]:
     import griffe
 
@@ -618,6 +641,7 @@ def _check_cli(case, observe=None) -> list[Fail]:
         names = [f"{G.PKG}{i}" for i in range(len(case["pkgs"]))]
         try:
             search: list[str] = []
+            requests: list[str] = []
             dynamic = case.get("agent") == "dynamic"
             for i, (name, pkg) in enumerate(zip(names, case["pkgs"])):
                 if dynamic and not pkg["importable"]:
@@ -626,6 +650,8 @@ def _check_cli(case, observe=None) -> list[Fail]:
                     return []
                 info = G.render_package(pkg, root / f"p{i}", style=case.get("parser"), name=name, steer=case.get("steer", ()))
                 search += info["search_paths"]
+                requests.append(_cli_request(case, i, name, pkg, root))
+            os.chdir(root)  # relative path requests are relative to the working directory
             # reference: an identically configured loader (what _griffe.cli._load_packages builds)
             loader = griffe.GriffeLoader(
                 search_paths=search,
@@ -634,9 +660,11 @@ def _check_cli(case, observe=None) -> list[Fail]:
                 force_inspection=dynamic,
                 store_source=False,
             )
+            tops = []
             try:
-                for name in names:
-                    loader.load(name, try_relative_path=True)
+                for request in requests:
+                    loaded = loader.load(request, try_relative_path=True)
+                    tops.append(loaded.package.name)
                 if case.get("resolve"):
                     loader.resolve_aliases(implicit=case["resolve"] == 2, external=None)
             except Exception as exc:  # noqa: BLE001
@@ -644,6 +672,12 @@ def _check_cli(case, observe=None) -> list[Fail]:
                     observe["skip"] = f"load-error:{type(exc).__name__}"
                 return []
             full = bool(case.get("full"))
+            # "for each requested package": the top-level package each request designates, however it was written
+            # (name, relative / absolute path, trailing slash, dotted sub-module)
+            if sorted(set(tops)) != sorted(names):
+                if observe is not None:
+                    observe["skip"] = "request-resolves-elsewhere"
+                return []
             expected = {}
             for name in names:
                 try:
@@ -652,7 +686,7 @@ def _check_cli(case, observe=None) -> list[Fail]:
                     if observe is not None:
                         observe["skip"] = "reference-dump-raises"
                     return []
-            args = ["dump", *names]
+            args = ["dump", *requests]
             for sp in search:
                 args += ["-s", sp]
             if full:
@@ -677,7 +711,7 @@ def _check_cli(case, observe=None) -> list[Fail]:
             with contextlib.redirect_stdout(buf), contextlib.redirect_stderr(io.StringIO()):
                 rc = call("cli", griffe.main, args, what="griffe " + " ".join(a.replace(str(root), "<ROOT>") for a in args))
             if rc != 0:
-                fails.append(Fail("cli", "exit-code", f"griffe dump of {len(names)} loadable package(s) returned {rc}"))
+                fails.append(Fail("cli", "exit-code", f"griffe dump of {len(names)} loadable package(s) requested as {[r.replace(str(root), '<ROOT>') for r in requests]} returned {rc}"))
             try:
                 if out_mode == "stdout":
                     got = json.loads(buf.getvalue())
@@ -691,7 +725,7 @@ def _check_cli(case, observe=None) -> list[Fail]:
             if out_mode != "stdout" and buf.getvalue().strip():
                 fails.append(Fail("cli", f"{out_mode}:stdout-not-empty", "griffe dump -o wrote to stdout as well"))
             if sorted(got) != sorted(expected):
-                fails.append(Fail("cli", f"{out_mode}:packages", f"dumped packages {sorted(got)} != requested {sorted(expected)}"))
+                fails.append(Fail("cli", f"{out_mode}:packages", f"griffe dump {[r.replace(str(root), '<ROOT>') for r in requests]} ({out_mode}) dumped packages {sorted(got)}, requested {sorted(expected)}"))
             for name in names:
                 if name in got and got[name] != expected[name]:
                     path, a, b = first_diff(expected[name], got[name]) or ((), None, None)
@@ -766,6 +800,7 @@ def _pkg_cases(ctx):
                 "parser": st.sampled_from(PARSERS),
                 "full": st.sampled_from((True, False)),
                 "out": st.sampled_from(("template", "file", "stdout")),
+                "req": st.lists(st.integers(0, len(REQUEST_FORMS) - 1), min_size=2, max_size=2),
                 "steer": st.just(steer),
             },
         )
@@ -894,6 +929,7 @@ def describe_with(observed: dict, case):
     src = dumps.get("min") or dumps.get("full") or dumps.get("cli")
     if case["kind"] == "cli":
         classes += [f"cli:out={case['out']}", f"cli:n={len(case['pkgs'])}", f"cli:full={case['full']}", f"cli:agent={case['agent']}"]
+        classes += sorted({f"cli:req={REQUEST_FORMS[r % len(REQUEST_FORMS)]}" for r in (case.get("req") or [0])[: len(case["pkgs"])]})
     else:
         classes += [f"agent:{case.get('agent', 'builtin')}", f"resolve:{case.get('resolve')}", f"parser:{case.get('parser')}"]
         if case["kind"] == "pkg":
